@@ -177,7 +177,8 @@ Section FileIO.
     end.
 
   (* ---- adfFileSeekOFS_: the fallback of an OFS seek whose extension-block walk failed - back to the start, then along the data blocks.
-          The result of adfFileSeekStart_ is not looked at by the C code; neither here. ---- *)
+          The result of adfFileSeekStart_ is not looked at by the C code; neither here.  At the end of a block the next one is fetched (the
+          target lies inside the file, so there is one): the walk ends, like adfFileSeekExt_, with the block that holds the target buffered. ---- *)
   Fixpoint ofs_walk (fuel : nat) (s : hstate) (offset target : Z) : bool * hstate :=
     match fuel with
     | O => (true, s)
@@ -186,7 +187,7 @@ Section FileIO.
           let size := Z.min (target - offset) (bs - pind s) in
           let s1 := set_pind (set_pos s (pos s + size)) (pind s + size) in
           let offset' := offset + size in
-          if (pind s1 =? bs) && (offset' <? target) then
+          if pind s1 =? bs then
             let '(ok, sn) := read_next s1 in
             if ok then ofs_walk f (set_pind sn 0) offset' target else (false, set_cur sn 0)
           else ofs_walk f s1 offset' target
